@@ -3,7 +3,7 @@ import core
 LEVEL = 'exploration'
 RULE = ('generated histories (3-25 steps, one builder) over 5 handles (Func x2, Struct.Method, ExportFunc.As, Interface.Method.As) and ops Apply(cb_k), Return, Returns, When(fresh x).Return, '
         'lookup-again, Cancel, Reset; after every step the affected target (and a second one) is called and compared with a last-writer-wins reference model that asserts only what the statement fixes; '
-        'plus package-override scenarios with two packages that each define an unexported foo and an unexported keeper type, for every kind of lookup, first and repeated; variables of eight kinds (incl. nil interfaces) driven by Set/Apply through kept handles and fresh lookups, Cancel and Reset; distinct = (handle, op, prior mode) classes')
+        'plus package-override scenarios with two packages that each define an unexported foo and an unexported keeper type, for every kind of lookup, first and repeated; variables of eight kinds (incl. nil interfaces) driven by Set/Apply through kept handles and fresh lookups, Cancel and Reset; refused instructions (13 kinds on function, method, by-name and interface targets, recovered by the caller) followed by two well-formed ones that must each take effect; distinct = (handle, op, prior mode) classes')
 
 
 def run(ctx):
@@ -17,3 +17,4 @@ def run(ctx):
     ctx.children(b, shards, run='TestC12$', env={'VERIF_C12_HIST': nh}, timeout=1200)
     ctx.children(b, 1, run='TestC12Pkg', timeout=300)
     ctx.children(b, 1, run='TestC12Var', env={'VERIF_C12_VARHIST': '60' if not ctx.thorough else '1500'}, timeout=600, what='TestC12Var')
+    ctx.children(b, 1, run='TestC12AfterRefusal', timeout=300, what='TestC12AfterRefusal')
